@@ -736,7 +736,7 @@ def judge(run, case, steps, model_events, viol, stats, answer):
     new = [v for v in viol if not any(common.matches(f, PROP, v[0]) for f in _KNOWN)]
     for sig, observed, evno in new:
         key = json.dumps(sig, sort_keys=True)
-        if key in _SHRUNK or len(_SHRUNK) >= 6:
+        if key in _SHRUNK or len(_SHRUNK) >= 10:
             continue
         _SHRUNK.add(key)
         small = shrink_case(case, sig)
